@@ -167,11 +167,17 @@ def compare_serial_avg_containment(siglist, *, downsample=False, return_ani=Fals
 
     for i, j in iterator:
         if return_ani:
-            cmp = FracMinHashComparison(siglist[j].minhash, siglist[i].minhash)
-            ani = cmp.avg_containment_ani
+            # same calls as MinHash.avg_containment_ani, honouring `downsample`
+            r1 = siglist[j].containment_ani(siglist[i], downsample=downsample)
+            r2 = siglist[i].containment_ani(siglist[j], downsample=downsample)
+            ani = None
+            if r1.ani is not None and r2.ani is not None:
+                ani = (r1.ani + r2.ani) / 2
             if ani is None:
                 ani = 0.0
-            if not potential_false_negatives and cmp.potential_false_negative:
+            if not potential_false_negatives and (
+                r1.p_exceeds_threshold or r2.p_exceeds_threshold
+            ):
                 potential_false_negatives = True
             containments[i][j] = containments[j][i] = ani
         else:
